@@ -1,10 +1,12 @@
 """C08 - the generator rejects conflicts / left recursion; the shipped grammars are LL(1) by an independent analysis."""
-from ..rules import gen, gr
+from ..rules import gen, gr, thompson
 
 
 def check(ctx, rep):
     gen.gen_1(ctx, rep)
     gen.gen_2(ctx, rep)
     gen.gen_3(ctx, rep)
+    thompson.gen_5(ctx, rep)      # EBNF -> NFA fragments: language of every construction path
     gr.gr_1_4(ctx, rep, with_follow=True)
-    rep.note('Not decided: faithfulness of the NFA/DFA construction as an input/output relation (translation validation).')
+    rep.note('Not decided: faithfulness of the NFA -> DFA subset construction and of the first-set / plan tables as an '
+             'input/output relation (the EBNF -> NFA step is decided by GEN-5 up to its stated bounds).')
